@@ -60,6 +60,10 @@ struct Plan {
     conn_fault_at: u64,
     #[serde(default)]
     conn_fault_delay_ms: u64,
+    /// the node connects and makes this many calls BEFORE Node::start (which is legal), and EPMD
+    /// then hands out the creation value the node already had (1)
+    #[serde(default)]
+    calls_before_start: u32,
     #[serde(default)]
     salt: u64,
 }
@@ -121,6 +125,7 @@ impl Scenario for C17 {
             conn_fault: String::new(),
             conn_fault_at: 0,
             conn_fault_delay_ms: 0,
+            calls_before_start: if r.chance(1, 10) { r.range(1, 3) as u32 } else { 0 },
             salt: r.next_u64(),
         };
         let m = margin_ms(&p);
@@ -174,7 +179,7 @@ impl Scenario for C17 {
             components_stubbed: &["TCP (SimNet)", "EPMD (stub)", "remote node: handshake acceptor + rex model with an independent frame/term reader"],
             assumptions: &["the peer ticks every 5 simulated seconds so that the receiver's 10 s read timeout (a C19 question) does not interfere", "RpcTimeout is judged inadmissible only if a reply addressed to the call was written by the peer at least `margin` before the call returned (margin = injected network/yield delay bound)"],
             fault_prefixes: &["fault.", "net."],
-            expected_probes: &["probe.c17.ok", "probe.c17.timeout", "probe.c17.reply_after_timeout_dropped", "probe.c17.duplicate_reply_dropped", "probe.c17.unknown_pid_reply_dropped", "probe.c17.not_connected", "probe.c17.send_failed", "probe.c17.liveness_probe_ok", "probe.c17.counter_moved_to_wrap"],
+            expected_probes: &["probe.c17.ok", "probe.c17.timeout", "probe.c17.reply_after_timeout_dropped", "probe.c17.duplicate_reply_dropped", "probe.c17.unknown_pid_reply_dropped", "probe.c17.not_connected", "probe.c17.send_failed", "probe.c17.liveness_probe_ok", "probe.c17.counter_moved_to_wrap", "probe.c17.calls_before_start"],
         }
     }
 }
@@ -192,6 +197,13 @@ struct Rep {
     to: Val,
     content: Val,
     t_sent: u64,
+}
+
+fn origin_of(content: &Val) -> Option<(i64, i64)> {
+    // {rex, {echo, Caller, Idx, Nonce}}
+    let t = content.as_tuple()?;
+    let e = t.get(1)?.as_tuple()?;
+    Some((e.get(1)?.as_i64()?, e.get(2)?.as_i64()?))
 }
 
 #[derive(Clone, Debug)]
@@ -214,6 +226,7 @@ struct Shared {
     nonce: u64,
     connected: bool,
     c2s: Option<crate::net::PipeCtl>,
+    other_pids: Vec<Val>,
 }
 
 fn reply_frame(to: &Val, content: &Val) -> Vec<u8> {
@@ -321,7 +334,7 @@ async fn rex(w: Arc<World>, mut conn: ServerConn, p: Arc<Plan>, sh: Arc<Mutex<Sh
         w.ev(format!("peer: request caller={} idx={} from={:?}", caller, idx, from));
         w.sig(0x4e0 ^ (caller as u64) << 8 ^ idx as u64);
         sh.lock().unwrap().reqs.push(Req { caller, idx, from: from.clone(), t: World::now_ms() });
-        let spec = if caller == 999 {
+        let spec = if caller == 999 || caller == 998 {
             CallSpec { reply: "normal".into(), ..Default::default() }
         } else {
             p.callers.get(caller as usize).and_then(|c| c.get(idx as usize)).cloned().unwrap_or_default()
@@ -381,13 +394,6 @@ async fn rex(w: Arc<World>, mut conn: ServerConn, p: Arc<Plan>, sh: Arc<Mutex<Sh
 async fn scenario(w: &Arc<World>, p: &Plan) {
     let p = Arc::new(p.clone());
     let sh = Arc::new(Mutex::new(Shared::default()));
-    let node = match start_node(w, 3).await {
-        Ok(n) => Arc::new(n),
-        Err(e) => {
-            w.violation("HARNESS-setup", e);
-            return;
-        }
-    };
     let (p2, sh2) = (p.clone(), sh.clone());
     install_conforming_peer(
         w,
@@ -395,9 +401,49 @@ async fn scenario(w: &Arc<World>, p: &Plan) {
         OTP_FLAGS_BASE,
         move |w, conn, _seen| Box::pin(rex(w, conn, p2.clone(), sh2.clone())),
     );
-    if let Err(e) = node.connect(PEER_NAME).await {
-        w.violation("HARNESS-setup", format!("connect to the conforming peer failed: {}", e));
-        return;
+    let node = if p.calls_before_start > 0 {
+        // connect and call first, start afterwards; EPMD assigns the creation the node already has
+        crate::peer::install_epmd(w, 1, "peer", 5555, false);
+        let mut node = edp_node::Node::new(crate::nodeenv::SUT_NAME, crate::nodeenv::COOKIE);
+        if let Err(e) = node.connect(PEER_NAME).await {
+            w.violation("HARNESS-setup", format!("connect before start failed: {}", e));
+            return;
+        }
+        for k in 0..p.calls_before_start {
+            let r = node.rpc_call_raw_with_timeout(PEER_NAME, "m", "f", vec![OwnedTerm::Integer(998), OwnedTerm::Integer(i64::from(k))], Duration::from_millis(5000 + margin_ms(&p))).await;
+            w.ev(format!("call before start {} -> {}", k, if r.is_ok() { "Ok".to_string() } else { r.unwrap_err().to_string() }));
+        }
+        if let Err(e) = node.start(0).await {
+            w.violation("HARNESS-setup", format!("Node::start failed: {}", e));
+            return;
+        }
+        w.stat("probe.c17.calls_before_start");
+        Arc::new(node)
+    } else {
+        let node = match start_node(w, 3).await {
+            Ok(n) => Arc::new(n),
+            Err(e) => {
+                w.violation("HARNESS-setup", e);
+                return;
+            }
+        };
+        if let Err(e) = node.connect(PEER_NAME).await {
+            w.violation("HARNESS-setup", format!("connect to the conforming peer failed: {}", e));
+            return;
+        }
+        node
+    };
+    if p.calls_before_start > 0 {
+        // a process spawned after start gets an identifier too: it must differ from every reply identifier
+        struct Idle;
+        impl edp_node::Process for Idle {
+            async fn handle_message(&mut self, _m: edp_node::Message) -> edp_node::Result<()> {
+                Ok(())
+            }
+        }
+        if let Ok(pid) = node.spawn(Idle).await {
+            sh.lock().unwrap().other_pids.push(crate::conv::pid_val(&pid));
+        }
     }
     w.set_yield_cfg(YieldCfg { intensity: p.yield_intensity, site_mask: p.yield_mask, max_sleep_ms: p.yield_sleep_ms });
 
@@ -489,6 +535,17 @@ fn evaluate(w: &Arc<World>, p: &Plan, sh: &Arc<Mutex<Shared>>) {
     for pr in &g.peer_problems {
         w.violation("request-malformed", pr.clone());
     }
+    // every call uses a fresh reply identifier, distinct from every other identifier the node handed out
+    {
+        let mut seen: Vec<&Val> = g.other_pids.iter().collect();
+        for q in &g.reqs {
+            if seen.contains(&&q.from) {
+                w.violation("reply-identifier-reused", format!("the request of caller {} call {} carries reply identifier {:?}, which the node had already handed out", q.caller, q.idx, q.from));
+                break;
+            }
+            seen.push(&q.from);
+        }
+    }
     let mut returned: Vec<&Val> = Vec::new();
     for r in &g.results {
         let spec = &p.callers[r.caller][r.idx];
@@ -503,7 +560,9 @@ fn evaluate(w: &Arc<World>, p: &Plan, sh: &Arc<Mutex<Shared>>) {
                     continue;
                 };
                 let addressed: Vec<&Rep> = g.reps.iter().filter(|x| x.to == req.from).collect();
-                if !addressed.iter().any(|x| &x.content == v) {
+                if origin_of(v) != Some((r.caller as i64, r.idx as i64)) {
+                    w.violation("wrong-reply", format!("caller {} call {} returned {} which the peer produced in answer to call {:?}", r.caller, r.idx, v.short(), origin_of(v)));
+                } else if !addressed.iter().any(|x| &x.content == v) {
                     let owner = g.reps.iter().find(|x| &x.content == v).map(|x| format!("{:?}", x.to));
                     w.violation("wrong-reply", format!("caller {} call {} (reply pid {:?}) returned {} which the peer addressed to {:?}", r.caller, r.idx, req.from, v.short(), owner));
                 }
